@@ -166,37 +166,148 @@ def _eligible(kind, owner, node):
 
 
 # ------------------------------------------------------------- references
+def _pkg_of(path):
+    parts = modname_of(path).split('.')
+    return parts if path.endswith('__init__.py') else parts[:-1]
+
+
+def _import_target(path, node):
+    """Absolute module named by a `from ... import` written in `path`."""
+    if node.level == 0:
+        return node.module or ''
+    pkg = _pkg_of(path)
+    up = node.level - 1
+    if up:
+        pkg = pkg[:-up]
+    base = '.'.join(pkg)
+    if node.module:
+        base = base + '.' + node.module if base else node.module
+    return base
+
+
+def _module_bindings(trees, path):
+    """{module-level name: origin} of a module: ('mod', absolute module) for
+    an imported module, ('obj', module, name) for an imported or locally
+    defined object; None for a name bound more than once."""
+    key = ('bind', path)
+    hit = _INDEX.get(key)
+    if hit is not None and hit[0] is trees[path]:
+        return hit[1]
+    mods = {modname_of(p_) for p_ in trees}
+    mod = modname_of(path)
+    out = {}
+
+    def bind(name, origin):
+        if name in out and out[name] != origin:
+            out[name] = None
+        else:
+            out[name] = origin
+
+    def block(stmts):
+        for st in stmts:
+            if isinstance(st, (ast.FunctionDef, ast.AsyncFunctionDef,
+                               ast.ClassDef)):
+                bind(st.name, ('obj', mod, st.name))
+            elif isinstance(st, ast.Import):
+                for a in st.names:
+                    if a.asname:
+                        bind(a.asname, ('mod', a.name))
+                    else:
+                        top = a.name.split('.')[0]
+                        bind(top, ('mod', top))
+            elif isinstance(st, ast.ImportFrom):
+                base = _import_target(path, st)
+                for a in st.names:
+                    full = base + '.' + a.name if base else a.name
+                    if full in mods:
+                        bind(a.asname or a.name, ('mod', full))
+                    else:
+                        bind(a.asname or a.name, ('obj', base, a.name))
+            elif isinstance(st, (ast.Assign, ast.AnnAssign, ast.AugAssign)):
+                tg = st.targets if isinstance(st, ast.Assign) else [st.target]
+                for t in tg:
+                    for x in ast.walk(t):
+                        if isinstance(x, ast.Name):
+                            bind(x.id, ('obj', mod, x.id))
+            elif isinstance(st, (ast.If, ast.Try, ast.With, ast.For,
+                                 ast.While)):
+                for name in _BLOCKS:
+                    lst = getattr(st, name, None)
+                    if isinstance(lst, list) and lst and \
+                            isinstance(lst[0], ast.stmt):
+                        block(lst)
+                for h in getattr(st, 'handlers', []) or []:
+                    block(h.body)
+                if isinstance(st, ast.For):
+                    for x in ast.walk(st.target):
+                        if isinstance(x, ast.Name):
+                            out[x.id] = None
+    block(trees[path].body)
+    _INDEX[key] = (trees[path], out)
+    return out
+
+
 def _refs_function(trees, path, node):
-    """(call nodes in the defining module, ok) for a module-level helper."""
+    """(call nodes, ok, {id(call): path of the calling module}) for a
+    module-level helper: plain calls in the defining module, and calls in
+    the modules that import it by name (`from m import helper`) or reach it
+    through the imported module (`m.helper(...)`)."""
     name = node.name
+    defmod = modname_of(path)
+    calls = []
+    home = {}
     for p, tree in trees.items():
+        local = {name} if p == path else set()
+        aliases = None
+        has_attr = False
         for n in ast.walk(tree):
             if isinstance(n, ast.Attribute) and n.attr == name:
-                return [], False
-            if isinstance(n, ast.alias) and \
-                    (n.name == name or n.asname == name):
-                return [], False
-            if p != path and isinstance(n, ast.Name) and n.id == name:
-                pass    # a different module's own global of the same name
+                has_attr = True
+            elif isinstance(n, ast.Import):
+                for a in n.names:
+                    if a.name == name or a.asname == name:
+                        return [], False, {}
+            elif isinstance(n, ast.ImportFrom):
+                for a in n.names:
+                    if a.name == name and p != path and \
+                            n in tree.body and \
+                            _import_target(p, n) == defmod:
+                        local.add(a.asname or a.name)
+                    elif a.name == name or a.asname == name:
+                        return [], False, {}
+        by_func = {}
+        if has_attr or local:
+            for n in ast.walk(tree):
+                if isinstance(n, ast.Call):
+                    by_func[id(n.func)] = n
+        if has_attr:
+            binds = _module_bindings(trees, p)
+            for n in ast.walk(tree):
+                if isinstance(n, ast.Attribute) and n.attr == name:
+                    if p != path and isinstance(n.value, ast.Name) and \
+                            binds.get(n.value.id) == ('mod', defmod) and \
+                            id(n) in by_func and \
+                            isinstance(n.ctx, ast.Load):
+                        calls.append(by_func[id(n)])
+                        home[id(by_func[id(n)])] = p
+                    else:
+                        return [], False, {}
+        if not local:
+            continue
+        for n in ast.walk(tree):
             if isinstance(n, (ast.FunctionDef, ast.AsyncFunctionDef,
                               ast.ClassDef)) and n is not node and \
-                    n.name == name and p == path:
-                return [], False
-            if isinstance(n, ast.arg) and n.arg == name and p == path:
-                return [], False
-    tree = trees[path]
-    funcs_of_calls = {}
-    for n in ast.walk(tree):
-        if isinstance(n, ast.Call) and isinstance(n.func, ast.Name) and \
-                n.func.id == name:
-            funcs_of_calls[id(n.func)] = n
-    calls = []
-    for n in ast.walk(tree):
-        if isinstance(n, ast.Name) and n.id == name:
-            if id(n) not in funcs_of_calls:
-                return [], False
-            calls.append(funcs_of_calls[id(n)])
-    return calls, True
+                    n.name in local:
+                return [], False, {}
+            if isinstance(n, ast.arg) and n.arg in local:
+                return [], False, {}
+            if isinstance(n, ast.Name) and n.id in local:
+                if id(n) not in by_func or \
+                        not isinstance(n.ctx, ast.Load):
+                    return [], False, {}
+                calls.append(by_func[id(n)])
+                home[id(by_func[id(n)])] = p
+    return calls, True, home
 
 
 def _refs_method(trees, path, owner, node, static, classm=False):
@@ -962,6 +1073,8 @@ class Inliner:
         self.trees = trees
         self.known = known
         self.log = []
+        self._foreign_cache = {}
+        self._foreign_keep = []     # keeps ids in _foreign_cache alive
 
     def run(self):
         for _ in range(MAX_ROUNDS):
@@ -969,8 +1082,8 @@ class Inliner:
             for path in sorted(self.trees):
                 tree = self.trees[path]
                 mod = modname_of(path)
-                if not any(k.startswith(mod + '.') for k in self.known):
-                    continue        # a module the census does not know
+                if '/_verif_' in path:
+                    continue        # a checker's own control module
                 for kind, owner, node in list(_defs(tree)):
                     q = '%s.%s' % (mod, node.name) if owner is None else \
                         '%s.%s.%s' % (mod, owner.name, node.name)
@@ -1074,8 +1187,10 @@ class Inliner:
 
     # one helper
     def _inline(self, path, q, kind, owner, node):
+        home = {}
+        self._foreign_cache = {}
         if kind == 'func':
-            calls, ok = _refs_function(self.trees, path, node)
+            calls, ok, home = _refs_function(self.trees, path, node)
         else:
             calls, ok = _refs_method(self.trees, path, owner, node,
                                      kind == 'static', kind == 'classmethod')
@@ -1095,10 +1210,20 @@ class Inliner:
         done = set()
         tag = node.name.strip('_')
         # containers to rewrite: every function (or the module) that holds
-        # a call
-        for scope in self._scopes(tree):
-            if scope is node:
+        # a call -- in the defining module, and in the modules that import
+        # the helper
+        origin = node
+        homes = [path] + sorted({p_ for p_ in home.values() if p_ != path})
+        for hp, scope in [(hp, sc) for hp in homes
+                          for sc in self._scopes(self.trees[hp])]:
+            if scope is origin:
                 continue
+            if hp != path:
+                node = self._foreign(origin, path, hp)
+                if node is None:
+                    continue
+            else:
+                node = origin
             here = [n for n in self._walk_scope(scope)
                     if isinstance(n, ast.Call) and id(n) in want]
             if not here:
@@ -1152,7 +1277,9 @@ class Inliner:
             if not all(id(c) in done for c in here):
                 self._rewrite_blocks(scope, node, bind_kind, want - done,
                                      idents, tag, done)
+        node = origin
         if done and done == want:
+            self._drop_imports(path, node.name, homes[1:])
             container = owner.body if owner is not None else \
                 self._container_of(tree, node)
             if container is not None and node in container:
@@ -1165,6 +1292,119 @@ class Inliner:
         for t in self.trees.values():
             ast.fix_missing_locations(t)
         return bool(done)
+
+    def _foreign(self, helper, path, p):
+        """The helper as it reads in module p: its module-level names are
+        written the way p names the same objects (an import of the same
+        object, the imported module, or an import added to p); None when
+        that cannot be done."""
+        key = (id(helper), p)
+        if key in self._foreign_cache:
+            return self._foreign_cache[key]
+        self._foreign_cache[key] = None
+        dbind = _module_bindings(self.trees, path)
+        pbind = _module_bindings(self.trees, p)
+        ptree = self.trees[p]
+        if any(isinstance(n, (ast.Global, ast.Nonlocal))
+               for n in ast.walk(helper)):
+            return None
+        own = {a.arg for a in ast.walk(helper.args)
+               if isinstance(a, ast.arg)}
+        for n in ast.walk(helper):
+            if isinstance(n, ast.Name) and \
+                    isinstance(n.ctx, (ast.Store, ast.Del)):
+                own.add(n.id)
+            elif isinstance(n, ast.ExceptHandler) and n.name:
+                own.add(n.name)
+            elif isinstance(n, (ast.FunctionDef, ast.AsyncFunctionDef,
+                                ast.ClassDef)) and n is not helper:
+                own.add(n.name)
+            elif isinstance(n, ast.arg):
+                own.add(n.arg)
+            elif isinstance(n, (ast.Import, ast.ImportFrom)):
+                return None
+        free = {n.id for n in ast.walk(helper) if isinstance(n, ast.Name)
+                and isinstance(n.ctx, ast.Load)} - own
+        import builtins
+        used = _idents(ptree) | {
+            n.name for n in ast.walk(ptree)
+            if isinstance(n, (ast.FunctionDef, ast.AsyncFunctionDef,
+                              ast.ClassDef))} | set(pbind)
+        ren = {}
+        add = []
+        for g in sorted(free):
+            if g not in dbind:
+                if hasattr(builtins, g) and g not in pbind:
+                    continue
+                return None
+            o = dbind[g]
+            if o is None:
+                return None
+            same = sorted(h for h, oo in pbind.items() if oo == o)
+            if g in same:
+                continue
+            if same:
+                if same[0] in own:
+                    return None
+                ren[g] = ast.Name(id=same[0], ctx=ast.Load())
+                continue
+            if o[0] == 'obj':
+                via = sorted(h for h, oo in pbind.items()
+                             if oo == ('mod', o[1]) and h not in own)
+                if via:
+                    ren[g] = ast.Attribute(
+                        value=ast.Name(id=via[0], ctx=ast.Load()),
+                        attr=o[2], ctx=ast.Load())
+                    continue
+            if g in used:
+                return None
+            add.append((g, o))
+        for g, o in add:
+            if o[0] == 'mod':
+                st = ast.Import(names=[ast.alias(name=o[1], asname=g)])
+            else:
+                st = ast.ImportFrom(module=o[1], level=0, names=[
+                    ast.alias(name=o[2], asname=None if g == o[2] else g)])
+            at = 0
+            for k, b in enumerate(ptree.body):
+                if isinstance(b, (ast.Import, ast.ImportFrom)):
+                    at = k + 1
+            if at == 0 and ptree.body and isinstance(
+                    ptree.body[0], ast.Expr) and isinstance(
+                    ptree.body[0].value, ast.Constant):
+                at = 1
+            ref = ptree.body[at - 1] if at else (
+                ptree.body[0] if ptree.body else helper)
+            ptree.body.insert(at, ast.copy_location(st, ref))
+            ast.fix_missing_locations(ptree)
+            _INDEX.pop(('bind', p), None)
+        out = copy.deepcopy(helper)
+
+        class R(ast.NodeTransformer):
+            def visit_Name(self, n):
+                if isinstance(n.ctx, ast.Load) and n.id in ren:
+                    return ast.copy_location(copy.deepcopy(ren[n.id]), n)
+                return n
+        out.body = [R().visit(b) for b in out.body]
+        ast.fix_missing_locations(out)
+        self._foreign_cache[key] = out
+        self._foreign_keep.append(helper)
+        return out
+
+    def _drop_imports(self, path, name, others):
+        """The helper is gone: so are the `from m import helper` of the
+        modules that called it."""
+        defmod = modname_of(path)
+        for p in others:
+            tree = self.trees[p]
+            for st in list(tree.body):
+                if isinstance(st, ast.ImportFrom) and \
+                        _import_target(p, st) == defmod and \
+                        any(a.name == name for a in st.names):
+                    st.names = [a for a in st.names if a.name != name]
+                    if not st.names:
+                        tree.body.remove(st)
+            _INDEX.pop(('bind', p), None)
 
     def _boolean_context(self, scope, call):
         for n in ast.walk(scope):
